@@ -20,7 +20,7 @@ ASSUMPTIONS = [
     'BufRead::consume/fill_buf of the reader are the subject of C04',
 ]
 MANIFEST = {'text': 'proof of: reader and writer agree on size, flag bit and order of every optional header part and both parsers slice payload/additional header/consumed bytes with their framing constant; '
-                    'the iterator counts exactly what it consumes and skips, numbers only delivered messages, and latches the framing only on success.'}
+                    'the iterator counts exactly what it consumes and skips, numbers only delivered messages, and latches the framing only on success. Added: before any framing is latched every position is tried with the storage parser before the serial parser sees it.'}
 
 IT = 'adlt::utils::dltmessageiterator::DltMessageIterator'
 
